@@ -39,8 +39,15 @@ DEFAULTS = dict(
     IRs=set(), Modules=set(), Sections=set(), Intervals=set(), CodeBlocks=set(), DataBlocks=set(),
     Proxies=set(), Symbols=set(), Exprs=set(), ExprSym={},
     Addrs=set(), ISizes={0}, Offs={0}, BSizes={0}, Names={"a"}, Name0="a", Pays=set(), Labels={"nolabel"},
-    Tags=set(), ByteVals={0, 1}, MaxBytes=0, Families=set(), ArgMax=2, ListIdx=set(),
+    Tags=set(), NFlags=7, ByteVals={0, 1}, MaxBytes=0, Families=set(), ArgMax=2, ListIdx=set(),
     Attach0=[], LazyK=3, Queries=set(), EmitKeys={"mods", "kids", "par", "cache"},
+    ScalDom={"name": {"s0", "s1", "s2"}, "binary_path": {"s0", "s2"}, "isa": {"E0", "E1"}, "file_format": {"E0", "E1"},
+             "byte_order": {"E0", "E1"}, "preferred_addr": {"0", "MAX64"}, "rebase_delta": {"0", "MIN64"},
+             "at_end": {"F", "T"}, "decode_mode": {"E0", "E1"}, "xoffset": {"0", "MIN64"}, "xscale": {"1", "-1"}},
+    ScalDef={"name": "s0", "binary_path": "s0", "isa": "E0", "file_format": "E0", "byte_order": "E0",
+             "preferred_addr": "0", "rebase_delta": "0", "at_end": "F", "decode_mode": "E0", "xoffset": "0",
+             "xscale": "1"},
+    ExprKind=Raw("[e \\in {} |-> \"ac\"]"), ExprSym2=Raw("[e \\in {} |-> \"none\"]"), Symx0=set(), Cfg0=set(), Pay0=set(), Entry0=set(), ReloadWeight=1, SweepOps={"reload"}, SweepMode=False, TrackObs=False,
 )
 
 TREE_KEYS = {"mods", "kids", "par", "cache", "irof", "modof", "secof", "agg"}
@@ -235,15 +242,46 @@ CONFIGS["SymX2"] = dict(    # two intervals in two sections: moves and address c
 CONFIGS["SymX2T"] = dict(CONFIGS["SymX2"], Offs={0, 3})
 
 
-def get(name):
+def proto_base(schema):
+    """universe of the file-format checks (C01 C02 C09 C17 C18); enum domains come from /repo/proto"""
+    n = {k: len(v) for k, v in schema.enums.items()}
+    labels = {"nolabel"} | {"L%d%d%d" % (k, c, d) for k in range(n["EdgeType"]) for c in (0, 1) for d in (0, 1)}
+    return dict(
+        IRs={"i1"}, Modules={"m1", "m2"}, Sections={"s1", "s2"}, Intervals={"v1", "v2"}, CodeBlocks={"c1", "c2"},
+        DataBlocks={"d1"}, Proxies={"p1"}, Symbols={"y1", "y2", "y3"}, Exprs={"e1", "e2"},
+        ExprKind={"e1": "ac", "e2": "aa"}, ExprSym={"e1": "y1", "e2": "y1"}, ExprSym2={"e1": "none", "e2": "y2"},
+        Attach0=[("m1", "i1"), ("m2", "i1"), ("s1", "m1"), ("s2", "m2"), ("v1", "s1"), ("v2", "s2"), ("c1", "v1"),
+                 ("d1", "v1"), ("c2", "v2"), ("p1", "m1"), ("y1", "m1"), ("y2", "m1"), ("y3", "m2")],
+        Pay0={("y1", "c1"), ("y2", "#0"), ("y3", "c2")}, Entry0={("m1", "c1")},
+        Symx0={("v1", 0, "e1"), ("v1", 3, "e2")},
+        Cfg0={("i1", (["c1", "c2", "p1"][k % 3], ["c1", "c2", "p1"][(k // 3) % 3], lab))
+              for k, lab in enumerate(sorted(labels))} | {("i1", ("c1", "c1", "L000")), ("i1", ("c1", "c1", "nolabel"))},
+        Addrs={0, 5}, ISizes={0, 4}, Offs={0, 1, 3}, BSizes={0, 2}, Names={"a", "EMPTY", "NONASCII"}, Name0="a",
+        Pays={"#0", "#7"}, Labels=labels, Tags=set(range(8)), NFlags=n["SectionFlag"], ByteVals={0, 255}, MaxBytes=2,
+        ArgMax=1, ListIdx={0, 1},
+        ScalDom={"name": {"s0", "s1", "s2"}, "binary_path": {"s0", "s1", "s2"},
+                 "isa": {"E%d" % k for k in range(n["ISA"])},
+                 "file_format": {"E%d" % k for k in range(n["FileFormat"])},
+                 "byte_order": {"E%d" % k for k in range(n["ByteOrder"])},
+                 "decode_mode": {"E%d" % k for k in range(n["DecodeMode"])},
+                 "preferred_addr": {"0", "1", "MAX64", "2^63"}, "rebase_delta": {"0", "1", "-1", "MIN64", "MAX63"},
+                 "at_end": {"F", "T"}, "xoffset": {"0", "1", "-1", "MIN64", "MAX63"},
+                 "xscale": {"0", "1", "-1", "MIN64", "MAX63"}},
+        EmitKeys={"mods", "kids", "par", "cache", "addr", "isz", "off", "bsz", "sname", "pay", "symx", "cfg", "bytes",
+                  "tags", "entry", "scal"},
+    )
+
+
+def get(name, extra=None):
     c = copy.deepcopy(DEFAULTS)
-    c.update(copy.deepcopy(CONFIGS[name]))
+    c.update(copy.deepcopy(CONFIGS.get(name, {})))
+    c.update(copy.deepcopy(extra or {}))
     c["Families"] = {f if isinstance(f, tuple) else (f, "*") for f in c["Families"]}
     return c
 
 
 def render(name, *, emit=False, invariants=None, constraints=(), consts=None, view=True,
-           extends="Gtirb", spec="Spec", postcondition=None):
+           extends="Gtirb", spec="Spec", postcondition=None, action_constraints=()):
     """Returns (module_name, {filename: text}, cfg_text)."""
     c = consts if consts is not None else get(name)
     mod = "MC_" + name
@@ -259,6 +297,8 @@ def render(name, *, emit=False, invariants=None, constraints=(), consts=None, vi
         cfg.append("CONSTRAINT %s" % k)
     if view:
         cfg.append("VIEW absView")
+    for k in action_constraints:
+        cfg.append("ACTION_CONSTRAINT %s" % k)
     if emit:
         cfg.append("ACTION_CONSTRAINT Emit")
     if postcondition:
